@@ -17,7 +17,7 @@ PROPS = {
         not_yet_proved=[],
     ),
     "C02": dict(
-        extra_modules=["CstModel.Props.Gen", "CstModel.Props.GenIter", "CstModel.Props.GenToken", "CstModel.Proofs.TokenNav", "CstModel.Props.C03"],   # C03.forwarders_*: `text_range` of every wrapper type is the wrapped element's
+        extra_modules=["CstModel.Props.Gen", "CstModel.Props.GenIter", "CstModel.Props.GenNav", "CstModel.Props.GenToken", "CstModel.Proofs.TokenNav", "CstModel.Props.C03"],   # C03.forwarders_*: `text_range` of every wrapper type is the wrapped element's
         runs=runs([("red", "release")],
                   [("red", "release"), ("red", "debug"), ("red", "lasso")]),
         tags=["C02"],
@@ -32,7 +32,7 @@ PROPS = {
         not_yet_proved=[],
     ),
     "C03": dict(
-        extra_modules=["CstModel.Props.Gen", "CstModel.Props.GenIter", "CstModel.Proofs.Walk", "CstModel.Proofs.WalkN", "CstModel.Proofs.TokenSpec", "CstModel.Proofs.BackN"],
+        extra_modules=["CstModel.Props.Gen", "CstModel.Props.GenIter", "CstModel.Props.GenNav", "CstModel.Proofs.Walk", "CstModel.Proofs.WalkN", "CstModel.Proofs.TokenSpec", "CstModel.Proofs.BackN"],
         runs=runs([("red", "release")],
                   [("red", "release"), ("red", "debug"), ("red", "lasso")]),
         tags=["C03"],
